@@ -73,6 +73,7 @@ type Run struct {
 	obligs   int
 	threads  *threadState
 	pools    map[*value][]value // sync.Pool model: objects put back, per pool
+	orderSites int              // traversals of this path that were given a non-sorted order
 	freeMaps bool               // verif.FreeMapOrder(true): map iteration order is a free decision in cfg.MapOrder functions
 	exitCode *int
 	why      string
@@ -644,7 +645,9 @@ func isSymStr(v value) bool {
 
 func (r *Run) spawn(fr *frame, fn value, args []value) {
 	if r.threads == nil {
-		panic(unsupported("go statement outside the two-thread harness mode"))
+		// a go statement of the code under test: the goroutine is a coroutine that runs when the spawning
+		// thread waits for it (sync.WaitGroup.Wait); preemption only inside watched functions
+		r.threads = newThreadState()
 	}
 	r.threads.spawn(r, fr, fn, args)
 }
